@@ -354,6 +354,11 @@ def gen_bayer(rng, pk=None, os_=None, pat=None):
         case['pattern'] = ''.join(s)
     elif u < 0.06:        # not a perfect square
         case['pattern'] = case['pattern'] + rng.choice('RGB') * rng.choice([1, 2])
+    elif u < 0.075:       # oversample 0 / negative, or the empty pattern string
+        if rng.random() < 0.6:
+            case['os'] = rng.choice([0, 0, -1, -2])
+        else:
+            case['pattern'] = ''
     elif u < 0.10:        # an efficiency vector of the wrong length (looked at before the pattern string)
         vk = [k for k in ('qr', 'qg', 'qb') if case[k]['kind'] == 'vec']
         if vk:
@@ -801,9 +806,7 @@ def encode(c):
         if op == 'collect':
             return [1] + enc_img(c['img']) + [len(c['wave'])] + enc_qe(c['qe'], c['wave'])
         if op == 'bayer':
-            if c['os'] < 1 or len(c['pattern']) < 1:
-                return None      # ZeroDivisionError in the code: outside the modelled domain
-            if has_spectrum(c):
+            if has_spectrum(c) or c['os'] < 1 or len(c['pattern']) < 1:      # the entry-point model (Model/DetectorQE.v)
                 return ([9] + enc_img(c['img']) + enc_wave_any(c) + enc_qe_any(c['qr']) + enc_qe_any(c['qg'])
                         + enc_qe_any(c['qb']) + C.enc_list(pattern_codes(c['pattern']), lambda x: [x])
                         + [c['os'], 1 if c['flatten'] else 0])
@@ -859,7 +862,7 @@ def decode(c, ints):
     rd = C.Reader(ints, 1)
     st = rd.z()
     if st == 1:
-        return {'err': C.ERRNAMES[rd.z()]}
+        return {'err': {**C.ERRNAMES, 7: 'ZeroDivisionError'}[rd.z()]}
     op = c['op']
     if op == 'collect' or (op == 'bayer' and c['flatten']):
         return read_qarr(rd)
@@ -1111,6 +1114,8 @@ def pinned(c):
     op = c['op']
     if refusal(c):
         return 'error'
+    if op == 'bayer' and (c['os'] < 1 or len(c['pattern']) < 1):
+        return 'raises'      # C16_bayer_zero_division / C16_bayer_negative_oversample_refused: some exception, kind not pinned
     if op == 'collect':
         return 'value' if collect_domain(c, ['qe']) else None
     if op == 'bayer':
@@ -1148,6 +1153,10 @@ def compare(c, impl, model):
     pin = pinned(c)
     if pin is None:
         return None
+    if pin == 'raises':
+        return None if ('err' in impl) == ('err' in model) else (
+            f'implementation {"raised " + impl["err"] if "err" in impl else "returned a value"}, '
+            f'model {"raised " + model["err"] if "err" in model else "returned a value"}')
     if ('err' in impl) != ('err' in model):
         return (f'implementation {impl if "err" in impl else "returned a value"}, '
                 f'model {model if "err" in model else "returned a value"}')
@@ -1276,6 +1285,8 @@ def oracle(c, impl):
         return None
     exact = not has_spectrum(c)
     set_tol_floor(c)
+    if op == 'bayer' and pinned(c) == 'raises':
+        return None if 'err' in impl else f'collect_charge_bayer accepted oversample={c["os"]} pattern={c["pattern"]!r}: {str(impl)[:160]}'
     if op in ('collect', 'bayer', 'adc') and pinned(c) == 'error':
         kind, what = refusal(c) or ('ValueError', 'gain')
         return None if impl.get('err') == kind else f'{op}: a {what} was not refused with {kind}: {str(impl)[:200]}'
